@@ -158,7 +158,7 @@ func (g *GNMIFront) decodeGnmiUpdate(p Path, tv *gnmi.TypedValue) ([]*Leaf, erro
 		if jsonDoc == nil {
 			if n.Kind == KContainer && n.Presence {
 				// a presence container has no scalar form in gNMI; accept the empty JSON object only
-				return nil, fmt.Errorf("%s: presence container given as %T, expected a JSON object", p, tv.Value)
+				return nil, fmt.Errorf("%s: presence container given as scalar %T, expected a JSON object", p, tv.Value)
 			}
 			return nil, fmt.Errorf("%s: %s given as %T", p, kindName(n.Kind), tv.Value)
 		}
@@ -231,12 +231,31 @@ func (g *GNMIFront) Set(ctx context.Context, req *gnmi.SetRequest, opts ...grpc.
 	case DevUnreachable:
 		return nil, ErrDevUnreachable
 	}
+	prior := d.State.Clone()
 	ApplyGnmi(d.State, rec.Deletes, rec.Updates)
+	// YANG reading of presence containers (the favourable one for a sender that does not re-state what exists): a presence
+	// container that existed, explicitly or through a descendant, stays until it or an ancestor is deleted explicitly
+	for k, l := range d.State.PersistPresence(d.SI, prior, rec.Deletes) {
+		if _, ok := d.State[k]; !ok {
+			if n := d.SI.Node(l.Path); n != nil && n.Kind == KContainer && n.Presence && !hasLeafBelowState(d.State, l.Path) {
+				d.State[k] = l
+			}
+		}
+	}
 	rec.Applied = true
 	if rec.Fault == DevLostReply {
 		return nil, ErrDevLostReply
 	}
 	return &gnmi.SetResponse{}, nil
+}
+
+func hasLeafBelowState(s DevState, p Path) bool {
+	for _, l := range s {
+		if len(l.Path) > len(p) && l.Path.HasPrefix(p) {
+			return true
+		}
+	}
+	return false
 }
 
 var _ gnmi.GNMIClient = (*GNMIFront)(nil)
